@@ -248,6 +248,12 @@ def check_history(c):
                 c["iv"] = iv
                 last_ct = None
             continue
+        if what == "bad-dec":
+            # a ciphertext no equally configured object can have produced (truncated by one byte, or shorter than a
+            # block): refused or answered, the call is not judged; the operations after it are
+            ct = one_op(dict(c, M=M), "enc", M)
+            attempt(mo.dec, ct[:-1] if len(M) % 2 else ct[:len(ct) % CI.BLOCK[conf["cipher"]] + 1])
+            continue
         if what == "enc":
             got = guard(mo.enc, M)
             exp = one_op(dict(c, M=M), "enc", M)
@@ -285,7 +291,7 @@ def history_strategy(tier):
             return c
         return st.builds(build, st.sampled_from(["ECB", "CBC", "CTR", "CTS_ECB", "CTS_CBC"]),
                          st.lists(gen.blob_of(gen.length(B, 2)), min_size=2, max_size=4), gen.blob(B),
-                         st.lists(st.sampled_from(["enc", "enc", "dec", "dec-last", "setup"]), min_size=4, max_size=4))
+                         st.lists(st.sampled_from(["enc", "enc", "dec", "dec", "dec-last", "dec-last", "setup", "bad-dec"]), min_size=4, max_size=4))
     return CI.config_strategy(["des", "aes128", "tdea", "tf256"]).flatmap(for_conf)
 
 
@@ -302,7 +308,7 @@ FACETS = [
           rule="all 9 cipher configurations, all modes and paddings, lengths k*B + boundary residue, counter halves near wrap-around"),
     Facet("call-histories", check_history, strategy=history_strategy, budget={"quick": 1200, "thorough": 15000},
           shards={"quick": 16, "thorough": 32}, nontrivial=lambda c: len(c["ops"]) >= 2,
-          classify=lambda c: (c["mode"], "".join({"enc": "e", "dec": "d", "dec-last": "l", "setup": "s"}[k] for k, _ in c["ops"])),
-          rule="2..4 operations on ONE mode object: enc (== a fresh object's), dec of the ciphertext just produced, dec of a ciphertext that a fresh object produced for a different message, and (CTR) re-configuring the counter with DefaultCounter.setup()"),
+          classify=lambda c: (c["mode"], "".join({"enc": "e", "dec": "d", "dec-last": "l", "setup": "s", "bad-dec": "x"}[k] for k, _ in c["ops"])),
+          rule="2..4 operations on ONE mode object: enc (== a fresh object's), dec of the ciphertext just produced, dec of a ciphertext that a fresh object produced for a different message, (CTR) re-configuring the counter with DefaultCounter.setup(), and a dec call on a truncated ciphertext (refused or not, the later operations are judged)"),
 ]
 WEIGHT = {"length-sweep": 8, "random": 4}
